@@ -316,8 +316,7 @@ theorem strip_params_is_prefix (isSpace : Char → Bool) (t : RoleText.Str) : st
     simpa using this
   unfold stripParams
   split
-  · dsimp only
-    split
+  · split
     · exact (rstrip_prefix _).trans (List.take_prefix _ _)
     · exact List.prefix_refl _
   · exact List.prefix_refl _
@@ -352,8 +351,9 @@ example : roleParse (· == ' ') "dbcmd".toList .plain "!find".toList = ⟨"dbcmd
 example : roleParse (· == ' ') "dbcmd".toList .plain "dbcmd.find".toList = ⟨"dbcmd.find".toList, none, []⟩ := by decide
 example : roleParse (· == ' ') [] .cmdlineOption "mongod  --port".toList =
     ⟨"mongod.--port".toList, some "mongod  --port".toList, []⟩ := by decide
-/-- `.` of the parameter pattern does not cross a newline -/
-example : stripParams (fun c => c == ' ' || c == '\n') "a()(\n()()".toList = "a()(".toList := by decide
+/-- a signature that wraps over two lines is stripped like one on a single line (before the repair it was kept) -/
+example : stripParams (fun c => c == ' ' || c == '\n') "db.foo(a,\nb)".toList = "db.foo".toList ∧
+    stripParamsOld (fun c => c == ' ' || c == '\n') "db.foo(a,\nb)".toList = "db.foo(a,\nb)".toList := by decide
 /-- an escaped `<` does not open a target -/
 example : (parseExplicit (· == ' ') ['a', ' ', nul, '<', 'b', ' ', '<', 'c', '>']) = ("c".toList, some "a <b".toList) := by decide
 end RoleText
